@@ -140,6 +140,7 @@ def run(scenario, params, tape, detail=False):
     rig = e3app.AppRig(tape, version=V, sched=params.get("sched", True))
     loop, ncp = rig.loop, rig.ncp
     ncp.preform()  # the NCP has an old network that the write must replace
+    ncp.nwk_fc, ncp.aps_fc = 0x0001D001, 0x0002A002  # ... whose frame counters are not zero
     viol, probes = [], {}
 
     def probe(n, k=1):
